@@ -278,6 +278,7 @@ Proof.
   all: try apply frame_set_macros.
   all: try apply assign_frame.
   all: try apply capture_frame.
+  all: try apply block_frame.
   all: destruct (ev c c0); simpl; try apply frame_refl.
   - destruct (is_truthy v); [apply block_frame|apply if_alts_frame].
   - destruct (negb (is_truthy v)); [apply block_frame|apply if_alts_frame].
